@@ -79,6 +79,9 @@ def getattr_value(I, o, attr):
         return BoundMethod(o, attr)
     if isinstance(o, Fl) and attr in ("total_seconds", "date"):
         return BoundMethod(o, attr)
+    if isinstance(o, ClassRef) and (o.name, attr) in I.__dict__.get("class_attrs", {}):
+        I.trace.append(("global_read", "%s.%s" % (o.name, attr)))
+        return I.class_attrs[(o.name, attr)]
     if isinstance(o, ClassRef):
         from .engine import resolve_class_const
         c = resolve_class_const(o.name, attr)
